@@ -103,6 +103,15 @@ func c02Run(r *zsim.Run) {
 				w.Write([]byte(st.data))
 			case 4:
 				rq.panicked = true
+				switch st.code {
+				case 1:
+					panic(http.ErrAbortHandler)
+				case 2:
+					panic(fmt.Errorf("handler error %d", rq.id))
+				case 3:
+					var m map[string]int
+					m["nil-map"] = 1 // runtime error
+				}
 				panic("handler-panic")
 			}
 		}
@@ -142,7 +151,7 @@ func c02Run(r *zsim.Run) {
 						rq.steps = append(rq.steps, c02Step{kind: 3, data: fmt.Sprintf("<m%d-%d>", rq.id, s)})
 					case 5:
 						if f.Intn(3) == 2 {
-							rq.steps = append(rq.steps, c02Step{kind: 4})
+							rq.steps = append(rq.steps, c02Step{kind: 4, code: f.Intn(4)})
 						}
 					}
 				}
